@@ -43,7 +43,8 @@ def decoder_table(ctx):
     if "decoder_table" in ctx._cache:
         return ctx._cache["decoder_table"]
     f = ctx.facts
-    b = f.one(CODEC + "::parse_request")
+    # the public Decoder::decode on a codec whose header has been read (the state the decoder itself assigns)
+    b = f.one("<" + CODEC + " as tokio_util::codec::Decoder>::decode")
     table = {}
     HF = F(P("self"), "header")
     for op in range(256):
@@ -52,6 +53,7 @@ def decoder_table(ctx):
         def seeds(st):
             # body within the limit and completely buffered (the decode() caller guarantees both)
             assume(st, {F(HF, "body_length"): 1, F(P("self"), "item_size_limit"): -1}, hi=0)
+            assume(st, {("len0", P("src")): 1, F(HF, "body_length"): -1}, lo=0)
 
         paths = I.run(b, [codec_self(op), P("src")], seeds=seeds)
         outs = set()
